@@ -79,8 +79,11 @@ func C09(c *Ctx) int {
 	job := &Job{Opts: JobOpts{Mode: "tracer", Perturb: 9, Seed: c.Seed,
 		HoldPoints: []string{"tracer.take", "tracer.deliver", "tracer.subscribe"}}}
 	for i := 0; i < n; i++ {
-		sc := drive.TracerScenario{Senders: 1 + rng.Intn(8), NMsg: 1 + rng.Intn(6), Cancel: rng.Intn(2) == 0, Seed: c.Seed*100000 + int64(i)}
+		sc := drive.TracerScenario{Senders: 1 + rng.Intn(8), NMsg: 1 + rng.Intn(6), Cancel: rng.Intn(2) == 0, CancelAt: -1, Seed: c.Seed*100000 + int64(i)}
 		total := sc.Senders * sc.NMsg
+		if sc.Cancel && rng.Intn(2) == 0 {
+			sc.CancelAt = rng.Intn(total + 1) // cancelled while senders are still active
+		}
 		ns := 1 + rng.Intn(4)
 		for k := 0; k < ns; k++ {
 			sc.Caps = append(sc.Caps, []int{0, 0, 1, 2, 10, 64}[rng.Intn(6)])
